@@ -1,2 +1,14 @@
 import QlibcModel.Props.C03
-#print axioms Qlibc.Props.C03.placeholder
+#print axioms Qlibc.Props.C03.subtree_walk
+#print axioms Qlibc.Props.C03.subtree_walk_steps
+#print axioms Qlibc.Props.C03.walk_complete
+#print axioms Qlibc.Props.C03.walk_ascending
+#print axioms Qlibc.Props.C03.epoch_inv_init
+#print axioms Qlibc.Props.C03.epoch_inv_reset
+#print axioms Qlibc.Props.C03.epoch_inv_getnext
+#print axioms Qlibc.Props.C03.epoch_inv_of_sublist
+#print axioms Qlibc.Props.C03.epoch_inv_of_insert
+#print axioms Qlibc.Props.C03.epoch_inv_step
+#print axioms Qlibc.Props.C03.epoch_inv_reachable
+#print axioms Qlibc.Props.C03.history_walks_ok
+#print axioms Qlibc.Props.C03.traversal_any_history
